@@ -317,3 +317,9 @@ package pool
 //@ func (*Message) MarshalWithEncoder(encoder Encoder) (data []byte, err error)
 //@   trusted
 //@   requires r != nil
+//
+//@ func (*Message) GetOptionBytes(id message.OptionID) (v []byte, err error)
+//@   trusted
+//@   requires r != nil
+//@   ensures err == nil ==> (exists i int :: {r.msg.Options[i].ID} 0 <= i && i < len(r.msg.Options) && v == r.msg.Options[i].Value)
+//@   ensures len(v) < 65536 && (err != nil ==> v == nil)
